@@ -76,6 +76,13 @@ struct CmpBase {
     return desc ? (b / mod) < (a / mod) : (a / mod) < (b / mod);
   }
   bool operator()(const E &a, const E &b) const { return lt(valOf(a), valOf(b)); }
+  // the non const overload changes the STATE of the comparator object (part of the representation of the set): fine for
+  // a mutating operation of the set, visible in the representation hash if a const operation ever reaches it
+  long nonConstCalls = 0;
+  bool operator()(const E &a, const E &b) {
+    ++nonConstCalls;
+    return lt(valOf(a), valOf(b));
+  }
   template <bool T = Transparent, typename std::enable_if<T, int>::type = 0>
   bool operator()(const E &a, const Key &b) const {
     return lt(valOf(a), b.v);
